@@ -213,7 +213,7 @@ def run(ctx):
     st = [t for t in body if t[0] == "set"]
     tt = [t for t in body if t[0] == "T"]
     fr = [t for t in body if t[0] == "for"]
-    ok = len(vt) == 1 and len(tt) == 1 and len(fr) == 1 and len(st) >= 1 and st[0][2] == vt[0][1] and fr[0][1] == f"range(${st[0][1]})"
+    ok = len(vt) == 1 and len(tt) == 1 and len(fr) == 1 and ((len(st) >= 1 and st[0][2] == vt[0][1] and fr[0][1] == f"range(${st[0][1]})") or fr[0][1] == f"range({vt[0][1]})")
     if ok:
         ds = [t for t in flat(fr[0][2]) if t[0] == "D"]
         ok = len(ds) == 1 and ds[0][1] == "r" and ds[0][2] == "S" and ds[0][3] == "RS" and ds[0][4].startswith("NEWCODEC(")
